@@ -196,6 +196,12 @@ def swalk (h : SHeap) (head : Nat) : Nat → Nat → List Nat
   | 0, _ => []
   | fuel + 1, pos => if pos = head then [] else pos :: swalk h head fuel (h.next pos)
 def slistToList (h : SHeap) (fuel head : Nat) : List Nat := swalk h head fuel (h.next head)
+/-- `slist_empty(head)` / `igris::slist::empty()` -/
+def slistEmpty (h : SHeap) (head : Nat) : Bool := h.next head == head
+/-- `slist_size(head)`: counts the nodes `slist_for_each` visits -/
+def slistSize (h : SHeap) (fuel head : Nat) : Nat := (slistToList h fuel head).length
+/-- `slist_in(head, finded)`: is `finded` among the nodes `slist_for_each` visits -/
+def slistIn (h : SHeap) (fuel head fnd : Nat) : Bool := (slistToList h fuel head).contains fnd
 /-- `igris::slist::move_front(obj)` after `fix: slist::move_front unlinks the
 node from this list first`: find the predecessor in this list, unlink, add first -/
 def slistUnlinkFrom (h : SHeap) (head n : Nat) : Nat → Nat → SHeap
@@ -256,5 +262,119 @@ def hwalk (h : HHeap) : Nat → Option Nat → List Nat
   | _, none => []
   | fuel + 1, some p => p :: hwalk h fuel (h.next p)
 def hlistToList (h : HHeap) (fuel l : Nat) : List Nat := hwalk h fuel (h.first l)
+
+/-! ### container_of arithmetic (igris/util/member.h, memberxx.h)
+
+`mcast_out(member_ptr, type, member)` = `(type *)((char *)(member_ptr) - member_offsetof(type, member))`,
+`member_container(ptr, member)` = `(Type *)((char *)ptr - member_offset(member))`,
+`mcast_in(struct_ptr, member)` / `&(obj.*member)` = object address + offset.
+Addresses are 64-bit machine words (the subtraction wraps). -/
+
+abbrev Addr := BitVec 64
+
+/-- `mcast_out` / `member_container` / `dlist_entry` / `slist_entry` / `hlist_entry` -/
+def mcastOut (p off : Addr) : Addr := p - off
+/-- `mcast_in` / `&(obj.*member)` / `&pos->member` -/
+def mcastIn (e off : Addr) : Addr := e + off
+
+/-- the link field read through a machine address -/
+def Heap.nextA (h : Heap) (p : Addr) : Addr := BitVec.ofNat 64 (h.next p.toNat)
+def Heap.prevA (h : Heap) (p : Addr) : Addr := BitVec.ofNat 64 (h.prev p.toNat)
+
+/-- `dlist_first_entry(ptr, type, member)` = `dlist_entry((ptr)->next, type, member)` -/
+def dlistFirstEntry (h : Heap) (head off : Addr) : Addr := mcastOut (h.nextA head) off
+/-- `dlist_last_entry(ptr, type, member)` = `dlist_entry((ptr)->prev, type, member)` -/
+def dlistLastEntry (h : Heap) (head off : Addr) : Addr := mcastOut (h.prevA head) off
+/-- `dlist_next_entry(pos, member)` = `dlist_entry((pos)->member.next, typeof(*pos), member)` -/
+def dlistNextEntry (h : Heap) (pos off : Addr) : Addr := mcastOut (h.nextA (mcastIn pos off)) off
+/-- `dlist_prev_entry(pos, member)` -/
+def dlistPrevEntry (h : Heap) (pos off : Addr) : Addr := mcastOut (h.prevA (mcastIn pos off)) off
+
+/-- `dlist_for_each_entry(pos, head, member)`:
+`for (pos = first_entry(head); &pos->member != (head); pos = next_entry(pos))` — the objects visited -/
+def walkEntry (h : Heap) (head off : Addr) : Nat → Addr → List Addr
+  | 0, _ => []
+  | fuel + 1, pos => if mcastIn pos off = head then [] else pos :: walkEntry h head off fuel (dlistNextEntry h pos off)
+def dlistForEachEntry (h : Heap) (fuel : Nat) (head off : Addr) : List Addr :=
+  walkEntry h head off fuel (dlistFirstEntry h head off)
+
+/-- `dlist_for_each_entry_reverse(pos, head, member)` -/
+def walkEntryRev (h : Heap) (head off : Addr) : Nat → Addr → List Addr
+  | 0, _ => []
+  | fuel + 1, pos => if mcastIn pos off = head then [] else pos :: walkEntryRev h head off fuel (dlistPrevEntry h pos off)
+def dlistForEachEntryReverse (h : Heap) (fuel : Nat) (head off : Addr) : List Addr :=
+  walkEntryRev h head off fuel (dlistLastEntry h head off)
+
+/-! ### loops whose body may change the list -/
+
+/-- `dlist_for_each_safe(pos, n, head)`:
+`for (pos = (head)->next, n = pos->next; pos != (head); pos = n, n = pos->next) body`
+(also the C++ pattern `for (it = begin(); it != end();) { cur = it++; body(cur) }`):
+returns the final heap and the nodes the body ran on -/
+def forEachSafe (body : Heap → Nat → Heap) (head : Nat) : Nat → Heap → Nat → Nat → Heap × List Nat
+  | 0, h, _, _ => (h, [])
+  | fuel + 1, h, pos, n =>
+    if pos = head then (h, []) else
+    let h' := body h pos
+    let r := forEachSafe body head fuel h' n (h'.next n)
+    (r.1, pos :: r.2)
+def dlistForEachSafe (body : Heap → Nat → Heap) (h : Heap) (fuel head : Nat) : Heap × List Nat :=
+  forEachSafe body head fuel h (h.next head) (h.next (h.next head))
+
+/-- `dlist_for_each_entry_safe(pos, n, head, member)`:
+`for (pos = first_entry(head), n = next_entry(pos); &pos->member != (head); pos = n, n = next_entry(n)) body` -/
+def forEachEntrySafe (body : Heap → Addr → Heap) (head off : Addr) : Nat → Heap → Addr → Addr → Heap × List Addr
+  | 0, h, _, _ => (h, [])
+  | fuel + 1, h, pos, n =>
+    if mcastIn pos off = head then (h, []) else
+    let h' := body h pos
+    let r := forEachEntrySafe body head off fuel h' n (dlistNextEntry h' n off)
+    (r.1, pos :: r.2)
+def dlistForEachEntrySafe (body : Heap → Addr → Heap) (h : Heap) (fuel : Nat) (head off : Addr) : Heap × List Addr :=
+  let pos := dlistFirstEntry h head off
+  forEachEntrySafe body head off fuel h pos (dlistNextEntry h pos off)
+
+/-- the plain `dlist_for_each(pos, head) body`: `pos = pos->next` is read AFTER the body ran -/
+def forEachUnsafe (body : Heap → Nat → Heap) (head : Nat) : Nat → Heap → Nat → Heap × List Nat
+  | 0, h, _ => (h, [])
+  | fuel + 1, h, pos =>
+    if pos = head then (h, []) else
+    let h' := body h pos
+    let r := forEachUnsafe body head fuel h' (h'.next pos)
+    (r.1, pos :: r.2)
+
+/-! ### typed C++ wrapper `igris::dlist<type, member>` (igris/container/dlist.h:213-444)
+
+An iterator is the address of a `dlist_node` (`current`). -/
+
+def iterBegin (h : Heap) (l : Nat) : Nat := h.next l      -- begin(): iterator(list.next_node())
+def iterEnd (_h : Heap) (l : Nat) : Nat := l              -- end(): iterator(&list)
+def iterInc (h : Heap) (it : Nat) : Nat := h.next it      -- operator++: current = current->next_node()
+def iterDec (h : Heap) (it : Nat) : Nat := h.prev it      -- operator--: current = current->prev_node()
+def riterBegin (h : Heap) (l : Nat) : Nat := h.prev l     -- rbegin(): reverse_iterator(list.prev)
+def riterInc (h : Heap) (it : Nat) : Nat := h.prev it     -- reverse_iterator::operator++
+def riterDec (h : Heap) (it : Nat) : Nat := h.next it     -- reverse_iterator::operator--
+/-- `operator*` / `operator->`: `member_container(current, member)` -/
+def iterDeref (it off : Addr) : Addr := mcastOut it off
+/-- `front()` / `first()` / `first_entry()`, `back()` / `last_entry()` -/
+def listFront (h : Heap) (l off : Addr) : Addr := mcastOut (h.nextA l) off
+def listBack (h : Heap) (l off : Addr) : Addr := mcastOut (h.prevA l) off
+/-- `dlist::pop(obj)`: `(&(obj.*member))->unlink()` -/
+def listPop (h : Heap) (obj off : Addr) : Heap := nodeUnlink h (mcastIn obj off).toNat
+/-- `dlist::move_next(obj, head_node)` / `move_prev`, `move_front(obj)` / `move_back(obj)` -/
+def listMoveNext (h : Heap) (obj off : Addr) (headNode : Nat) : Heap := nodeMoveNextThan h (mcastIn obj off).toNat headNode
+def listMovePrev (h : Heap) (obj off : Addr) (headNode : Nat) : Heap := nodeMovePrevThan h (mcastIn obj off).toNat headNode
+/-- `move_next(obj, iterator head)` = `move_next(obj, *head)` = `move_next(obj, &((*head).*member))` -/
+def listMoveNextIt (h : Heap) (obj off : Addr) (it : Addr) : Heap :=
+  listMoveNext h obj off (mcastIn (iterDeref it off) off).toNat
+def listMovePrevIt (h : Heap) (obj off : Addr) (it : Addr) : Heap :=
+  listMovePrev h obj off (mcastIn (iterDeref it off) off).toNat
+/-- `dlist::round_left()`: `node = list.next; dlist_base::move_back(*node)` (after
+`fix: dlist::round_left compiles`) -/
+def listRoundLeft (h : Heap) (l : Nat) : Heap := nodeMovePrevThan h (h.next l) l
+/-- the erase-while-iterating pattern
+`for (it = begin(); it != end();) { cur = it++; if (pred(*cur)) pop(*cur); }` -/
+def listEraseIf (del : Nat → Bool) (h : Heap) (fuel l : Nat) : Heap × List Nat :=
+  dlistForEachSafe (fun h pos => if del pos then nodeUnlink h pos else h) h fuel l
 
 end Igris.C01
